@@ -6,12 +6,34 @@ TLC checks the invariants exhaustively and exports every completed call (CASE), 
 entry-decoder table (ECASE).  Binding: harness/c12 replays them into real client.LogClient instances behind a scripted
 http.RoundTripper that renders each class with real keys and certificates, re-verifies whatever is returned with std
 crypto over the independent encoding, and runs the entry decoder on the spec's classes and on seeded mutations.
+
+spec/client/TemporalClient.tla (+ MCTemporalClient): the temporal (sharded) log client of client/multilog.go - 1..3
+contiguous shards, each with its own key, window and adversarial server.  TLC checks RoutedToOneShard, OnlyVerifiedSCT
+(per routed shard), RootsUnion (every completion order, context ending at any point, liveness RootsTerminate),
+NoCrossTalk / PausesAreLocal exhaustively and exports every submission case (TCASE), submission sequence (TBEH) and
+GetAcceptedRoots schedule (RCASE).  Binding: harness/vt/c12t (go1.26 testing/synctest) replays all of them into a real
+client.NewTemporalLogClient behind a RoundTripper that routes by host to scripted per-shard servers with real keys.
 """
 import json
 import os
 import random
 
 from vlib import Infra
+
+ASSUME_TEMPORAL = [
+    "temporal client: shard lists are the well-formed ones (C18 decides what the constructor accepts) with bounds drawn from the "
+    "model's instants 0..4 (thorough: 0..6) or absent; instants are materialized on whole seconds one second and one hour apart "
+    "(sub-second bounds against second-resolution NotAfter are C18's subject); three key assignments (ECDSA/RSA/ECDSA, "
+    "RSA/ECDSA/RSA, all ECDSA) plus a key of each type that belongs to no shard",
+    "temporal client, NAMED CLAUSE LaxFirstElement: a first chain element that parses only leniently may be refused before "
+    "anybody is contacted or routed by its NotAfter; nothing else is accepted",
+    "temporal client, pacing: one caller at a time, calls spaced further apart (1000 s of virtual time) than the 128 s cap, so a "
+    "shard's multiplier and pauses are a function of the answers that shard gave (concurrent callers and pending back-off are C13's)",
+    "temporal client, roots: the per-shard requests are held at gates inside the RoundTripper and released one at a time "
+    "(testing/synctest.Wait between releases), so the completion order is the specification's; requests still outstanding when the "
+    "context ends all fail with the context's error; the ORDER of the returned roots is not asserted, nor WHICH failed shard's error "
+    "is returned (it must be one of them, with its status and body, or the context's)",
+]
 
 ASSUME = [
     "SHA-256 / ECDSA P-256 / RSA PKCS#1 v1.5 soundness (signatures are tokens in the spec; the harness uses real keys: "
@@ -38,6 +60,59 @@ def dedup(records):
     return out
 
 
+def tlc_export(ctx, cfg, tag, count=False):
+    r = ctx.tlc("client", "MCTemporalClient", cfg, workers=1, count=count, timeout=2400)
+    recs = r.records.get(tag, [])
+    if not recs:
+        raise Infra("%s exported no %s record" % (cfg, tag))
+    return recs
+
+
+def temporal(ctx):
+    """The temporal (sharded) log client: TemporalClient.tla checked and every exported case replayed."""
+    ctx.assumptions += ASSUME_TEMPORAL
+    workers = min(8, os.cpu_count() or 4)
+    if os.environ.get("VERIF_C12_SKIP_MC") != "1":   # development aid for mutation runs: the model does not depend on /repo
+        # 1. exhaustive: shard lists x instants x chains x first-element forms x answer scripts; safety of all scenes
+        ctx.tlc("client", "MCTemporalClient", ctx.pick("TemporalClientSmall.cfg", "TemporalClient.cfg"), workers=workers, timeout=3000)
+        if ctx.thorough():
+            ctx.tlc("client", "MCTemporalClient", "TemporalClientTwoCalls.cfg", workers=workers, timeout=3000)
+        # 2. liveness of the fan-out: it returns when no shard hangs, and when the context ends
+        ctx.tlc("client", "MCTemporalClient", "TemporalClientRootsLive.cfg", workers=4)
+    # 3. exports (the invariants are checked again on the exported state spaces)
+    route = tlc_export(ctx, ctx.pick("TemporalClientRouteCases.cfg", "TemporalClientRouteCasesFull.cfg"), "TCASE")
+    classes = tlc_export(ctx, ctx.pick("TemporalClientClassCases.cfg", "TemporalClientClassCasesFull.cfg"), "TCASE")
+    seqs = tlc_export(ctx, ctx.pick("TemporalClientPacing.cfg", "TemporalClientPacingFull.cfg"), "TBEH")
+    if ctx.thorough():
+        seqs += tlc_export(ctx, "TemporalClientPacing3.cfg", "TBEH")
+    roots = tlc_export(ctx, ctx.pick("TemporalClientRootsSmall.cfg", "TemporalClientRoots.cfg"), "RCASE", count=True)
+    ctx.log("temporal client: %d routing cases, %d server-class cases, %d submission sequences, %d roots schedules"
+            % (len(route), len(classes), len(seqs), len(roots)))
+    ctx.notes["temporal_cases"] = {"routing": len(route), "server_classes": len(classes), "sequences": len(seqs),
+                                   "roots_schedules": len(roots)}
+    # 4. replay into the real client.TemporalLogClient under virtual time
+    for name, items in (("c12t-route", route), ("c12t-classes", classes), ("c12t-sequences", seqs)):
+        path = ctx.write_ndjson(name + ".ndjson", items)
+        ctx.go_test("vt/c12t", run="TestSubmit$", env={"VERIF_TCASES": path, "VERIF_TNAME": name}, toolchain="go1.26",
+                    timeout=2400, name=name)
+    path = ctx.write_ndjson("c12t-roots.ndjson", roots)
+    ctx.go_test("vt/c12t", run="TestRoots$", env={"VERIF_RCASES": path}, toolchain="go1.26", race=True, timeout=2400,
+                name="c12t-roots")
+    return {"temporal_routing_cases": len(route), "temporal_server_class_cases": len(classes),
+            "temporal_roots_schedules": len(roots)}
+
+
+def temporal_replay(ctx, data, env):
+    case = data["case"]
+    path = ctx.write_ndjson("temporal-replay.ndjson", [case])
+    step = case.get("step") or {}
+    if step.get("k") == "roots":
+        ctx.go_test("vt/c12t", run="TestRoots$", env=dict(env, VERIF_RCASES=path, VERIF_ALL_WORLDS=1), toolchain="go1.26",
+                    name="c12t-roots")
+    else:
+        ctx.go_test("vt/c12t", run="TestSubmit$", env=dict(env, VERIF_TCASES=path), toolchain="go1.26", name="c12t-submit")
+
+
 def run(ctx, replay=None):
     ctx.assumptions += ASSUME
     if replay:
@@ -45,7 +120,9 @@ def run(ctx, replay=None):
             rp = json.load(f)
         data = rp.get("replay") or {}
         env = {"VERIF_SEED": rp.get("seed", ctx.seed)}
-        if "behaviour" in data:
+        if "case" in data:
+            temporal_replay(ctx, data, env)
+        elif "behaviour" in data:
             path = ctx.write_ndjson("replay.ndjson", [data["behaviour"]])
             ctx.go_test("c12", run="TestReplay$", env=dict(env, VERIF_BEHAVIOURS=path))
         elif "leaf_input" in data:
@@ -53,6 +130,9 @@ def run(ctx, replay=None):
             ctx.go_test("c12", run="TestEntryReplay$", env=dict(env, VERIF_ENTRY_REPLAY=path))
         else:
             raise Infra("replay file carries neither a behaviour nor a decoder input")
+        return
+    if os.environ.get("VERIF_C12_ONLY") == "temporal":   # development aid for mutation runs
+        ctx.exhaustive = temporal(ctx)
         return
     # 1. exhaustive model check: methods x statuses x classes, sequences of calls, repeated submissions
     ctx.tlc("client", "MCLogClient", ctx.pick("LogClientSmall.cfg", "LogClient.cfg"), workers=min(8, os.cpu_count() or 4))
@@ -85,3 +165,5 @@ def run(ctx, replay=None):
     epath = ctx.write_ndjson("ecases.ndjson", ecases)
     ctx.go_test("c12", run="TestEntryDecoder$", env={"VERIF_ECASES": epath, "VERIF_MUTATIONS": ctx.pick(20000, 400000)},
                 timeout=1200, name="c12entries")
+    # 4. the temporal (sharded) log client
+    ctx.exhaustive.update(temporal(ctx))
